@@ -433,13 +433,17 @@ class DemoStorage(ConflictResolvingStorage):
 
         with self._lock:
             try:
-                if not a and 'tid' not in k:
+                if (a[0] if a else k.get('tid')) is None:
                     # The changes storage chooses ids later than its own
                     # last one only.  Until it has caught up, ids also
                     # have to come after everything in the base.
                     base_last = self.base.lastTransaction()
                     if base_last > self.changes.lastTransaction():
-                        k['tid'] = ZODB.utils.newTid(base_last)
+                        tid = ZODB.utils.newTid(base_last)
+                        if a:
+                            a = (tid,) + a[1:]
+                        else:
+                            k['tid'] = tid
                 self.changes.tpc_begin(transaction, *a, **k)
             except BaseException:
                 # We are not in a transaction, so tpc_abort() would ignore
